@@ -185,6 +185,12 @@ def run_wrappers(rng, obs):
         ck(abs(fopt - min(objs)) <= 1e-12 * max(1.0, abs(fopt)), 'reported best energy is the minimum of the member bests', observed=fopt, member_bests=[min(objs)],
            through='best objective over all evaluated points')
         ck(tuple(xopt) in set(c[0] for c in probe.calls), 'reported solution is the best member\'s solution', best=xopt, winners=[])
+    it, fc, wf = int(out[2]), int(out[3]), int(out[4])
+    if wf == 1: okw = maxfun is not None and fc >= maxfun
+    elif wf == 2: okw = it >= maxiter
+    else: okw = it < maxiter and (maxfun is None or fc < maxfun)
+    ck(okw, 'every member honours the ensemble\'s generation limit', iters=[it], maxiter=maxiter, warnflag=wf, funcalls=fc, maxfun=maxfun,
+       through='warnflag of the wrapper names the limit that the reported member reached')
     obs.event('members', n); obs.event('wrapper_cases')
     obs.nontrivial = probe.n > 10 * n
     obs.notes = {'cost_calls': probe.n, 'fopt': fopt}
